@@ -600,6 +600,13 @@ func runWorldProp(c *runCtx, prop string) error {
 	wi := 0
 	directed := directedWorlds(prop)
 	for len(c.cases) < c.n {
+		if prop == "C01" && wi >= len(directed) && r.Intn(5) == 0 { // a fifth of the C01 cases: tag references
+			if err := genTagCase(c, r, wi); err != nil {
+				return err
+			}
+			wi++
+			continue
+		}
 		if prop == "C09" && wi >= len(directed) && r.Intn(3) == 0 { // a third of the C09 cases: code-review approvals
 			if err := genReviewCase(c, r, wi); err != nil {
 				return err
